@@ -1111,3 +1111,41 @@ def cross_values(rng, specs, limit=16, depth=0):
     rng.shuffle(uniq)
     return uniq[:limit]
   return out
+
+
+def relax(rng, d, p=0.6):
+  """A deep copy of `d` that leaves some bounds / sizes unspecified: the spec a
+  subclass writes when it overrides a field and inherits the rest (extending
+  the original then fills the unspecified parameters in)."""
+  d = copy.deepcopy(d)
+  def walk(x):
+    if x['k'] in ('int', 'float', 'list', 'vtuple'):
+      for b in ('min', 'max'):
+        if rng.random() < p:
+          x[b] = None
+    if x.get('frozen') and rng.random() < 0.5:
+      x.pop('frozen')
+    if x['k'] == 'dict' and x['fields'] and len(x['fields']) > 1 and rng.random() < 0.2:
+      x['fields'].pop(rng.randrange(len(x['fields'])))
+      if 'default' in x:
+        x.pop('default')
+        x.pop('frozen', None)
+    for c in children(x):
+      walk(c)
+  walk(d)
+  try:
+    build(d)
+    return d
+  except Exception:  # pylint: disable=broad-except
+    return copy.deepcopy(d) if False else strip_defaults(d)
+
+
+def strip_defaults(d):
+  d = copy.deepcopy(d)
+  def walk(x):
+    x.pop('default', None)
+    x.pop('frozen', None)
+    for c in children(x):
+      walk(c)
+  walk(d)
+  return d
